@@ -240,7 +240,7 @@ def bundled(chk, rng, thorough):
     all_canon = list(R["units"])            # including offset / log units
     pnames = set(R["prefixes"])
     work = [{n: 1} for n in all_canon]
-    exps = [1, -1, 2, -2, 3, F(1, 2), -3, F(-1, 2)]
+    exps = [1, -1, 2, -2, 3, F(1, 2), -3, F(-1, 2), 4, 5, 6, 7, 8, 9, 10, 19, -9, -10]
     for _ in range(1500 if thorough else 300):
         d = {}
         for _ in range(rng.randint(2, 4)):
@@ -250,6 +250,22 @@ def bundled(chk, rng, thorough):
             d[n] = rng.choice(exps)
         work.append(d)
     events = []
+    from pint.delegates.formatter._compound_unit_helpers import sort_by_dimensionality
+    ureg_sorted = pint.UnitRegistry()
+    ureg_sorted.formatter.default_sort_func = sort_by_dimensionality
+    dimless = [n for n in all_canon if not R["units"][n]["ref"] or n in ("radian", "bit", "count", "percent", "degree")][:12]
+    for d in [{n: 1} for n in dimless] + [{rng.choice(dimless): rng.choice([1, 2, -1]), rng.choice(canon): rng.choice([1, -2])} for _ in range(60)]:
+        for fmt in ("D", "C", "P", "H"):
+            chk.case(("sort-by-dimensionality", repr(sorted(d.items())), fmt))
+            try:
+                un = ureg_sorted.Unit(ureg_sorted.UnitsContainer({ureg_sorted.get_name(k): v for k, v in d.items()}))
+                text = format(un, fmt)
+                rb = read_back(text, fmt, pnames)
+                want = {k: F(v) for k, v in (1 * un).unit_items()}
+                if rb is None or {k: F(v) for k, v in rb.items()} != want:
+                    chk.diverge({"clause": "denotation", "fmt": fmt, "sort": "by-dimensionality"}, {"unit": d, "text": text, "read": {k: str(v) for k, v in (rb or {}).items()}})
+            except Exception as e:
+                chk.diverge({"clause": "format-raises", "fmt": fmt, "exc": type(e).__name__, "sort": "by-dimensionality"}, {"unit": d})
     for d in work:
         try:
             unit = ureg.Unit(ureg.UnitsContainer({ureg.get_name(k): (int(v) if F(v).denominator == 1 else float(v)) for k, v in d.items()}))
@@ -316,6 +332,20 @@ def quantities(chk, rng):
                             continue          # rewritten as a power of ten by the pretty / HTML formats
                         if not text.startswith(want):
                             chk.diverge({"clause": "magnitude-format", "type": T.__name__}, {"spec": mspec + uspec, "text": text, "expected_prefix": want})
+                        # the unit part of a formatted quantity is the formatted unit
+                        utext = format(q.units, uspec)
+                        ok_join = text == want + (" " + utext if utext else "") or (utext == "" and text.strip() == want)
+                        if utext.startswith("1 / "):          # default format: "3 / second" rather than "3 1 / second"
+                            ok_join = ok_join or text == want + utext[1:]
+                        if not ok_join:
+                            chk.diverge({"clause": "quantity-unit-part", "type": T.__name__, "uspec": uspec}, {"spec": mspec + uspec, "text": text, "unit_text": utext, "magnitude_text": want})
+                if T is float and un == "meter" and m == 1234.5678:
+                    sup = str.maketrans("-0123456789", "⁻⁰¹²³⁴⁵⁶⁷⁸⁹")
+                    for k in range(-19, 20):
+                        txt = format(ureg.Quantity(1.5 * 10.0 ** k, "meter"), ".1e~P")
+                        exp_txt = "1.5×10" + str(k).translate(sup) + " m" if k != 0 else None
+                        if exp_txt and txt != exp_txt and abs(float("%.1e" % (1.5 * 10.0 ** k)) - 1.5 * 10.0 ** k) < 1e-3 * 10.0 ** k:
+                            chk.diverge({"clause": "pretty-power-of-ten"}, {"k": k, "expected": exp_txt, "observed": txt})
                 if T is float and un in ("meter", "newton * meter ** 2"):
                     a, b = format(q, "#~P"), format(q.to_compact(), "~P")
                     if a != b:
